@@ -26,17 +26,22 @@ Section Proofs.
         (s_coords, FMat (len (c_shape c)) (c_coords c))].
   Proof. reflexivity. Qed.
 
-  Lemma save_gcxs (g : gcxs V) :
-    save_members V (AGcxs KGCXS g) =
-    Ok [(s_data, FData (g_data g)); (s_shape, FInts (g_shape g)); (s_fill, FScalar (g_fill g));
-        (s_indices, FInts (g_indices g)); (s_indptr, FInts (g_indptr g)); (s_axes, axes_field V (g_axes g))].
-  Proof. reflexivity. Qed.
-
-  (* the subclasses: `type(matrix) is GCXS` is false, nothing but the base members is written *)
-  Lemma save_csr_csc (k : klass) (g : gcxs V) : k = KCSR \/ k = KCSC ->
+  (* every GCXS-family class (isinstance(matrix, GCXS)) writes indices and indptr; compressed_axes only when not None *)
+  Lemma save_gcxs_axes (k : klass) (g : gcxs V) (ca : list Z) : k <> KCOO -> g_axes g = Some ca ->
     save_members V (AGcxs k g) =
-    Ok [(s_data, FData (g_data g)); (s_shape, FInts (g_shape g)); (s_fill, FScalar (g_fill g))].
-  Proof. intros [-> | ->]; reflexivity. Qed.
+    Ok [(s_data, FData (g_data g)); (s_shape, FInts (g_shape g)); (s_fill, FScalar (g_fill g));
+        (s_indices, FInts (g_indices g)); (s_indptr, FInts (g_indptr g)); (s_axes, FInts ca)].
+  Proof.
+    intros Hk E. destruct g as [sh ax d ind ptr f]; cbn in E; subst ax. destruct k; [congruence | | |]; reflexivity.
+  Qed.
+
+  Lemma save_gcxs_noaxes (k : klass) (g : gcxs V) : k <> KCOO -> g_axes g = None ->
+    save_members V (AGcxs k g) =
+    Ok [(s_data, FData (g_data g)); (s_shape, FInts (g_shape g)); (s_fill, FScalar (g_fill g));
+        (s_indices, FInts (g_indices g)); (s_indptr, FInts (g_indptr g))].
+  Proof.
+    intros Hk E. destruct g as [sh ax d ind ptr f]; cbn in E; subst ax. destruct k; [congruence | | |]; reflexivity.
+  Qed.
 
   (* ------------------------------------------------------------------ what load_npz makes of complete member sets *)
   Lemma load_coo_members d sh f r cols :
@@ -50,14 +55,11 @@ Section Proofs.
     (g <- gcxs_ctor V sh (Some ca) d ind ptr f ;; Ok (AGcxs KGCXS g)).
   Proof. reflexivity. Qed.
 
-  (* compressed_axes = None was written as an object array: np.load(allow_pickle=False) refuses it *)
-  Lemma load_gcxs_members_axes_none d sh f ind ptr :
+  (* no compressed_axes member: the optional read yields None *)
+  Lemma load_gcxs_members_noaxes d sh f ind ptr :
     load_members V [(s_data, FData d); (s_shape, FInts sh); (s_fill, FScalar f);
-                    (s_indices, FInts ind); (s_indptr, FInts ptr); (s_axes, FObject)] = Raise ValueError.
-  Proof. reflexivity. Qed.
-
-  Lemma load_base_members d sh f :
-    load_members V [(s_data, FData d); (s_shape, FInts sh); (s_fill, FScalar f)] = Raise RuntimeError.
+                    (s_indices, FInts ind); (s_indptr, FInts ptr)] =
+    (g <- gcxs_ctor V sh None d ind ptr f ;; Ok (AGcxs KGCXS g)).
   Proof. reflexivity. Qed.
 
   (* ------------------------------------------------------------------ constructors on well-formed input *)
@@ -93,25 +95,39 @@ Section Proofs.
     apply Z.leb_le in Hnd. lia.
   Qed.
 
+  Lemma gcxs_ctor_noaxes sh d ind ptr f :
+    gcxs_ctor V sh None d ind ptr f = Ok (mkGCXS sh None d ind ptr f).
+  Proof. unfold gcxs_ctor. cbn [bind]. now destruct (len sh =? 1). Qed.
+
   (* ------------------------------------------------------------------ npz round trip *)
-  Lemma npz_roundtrip_partial_proof (x : arr) :
-    wf V x = true -> d9_gcxs_1d V x = true -> d9_csr_csc_subclass V x = true ->
-    (ms <- save_members V x ;; load_members V ms) = Ok x.
+  Lemma gcxs_wf_class k (g : gcxs V) : gcxs_wf V k g = true -> k <> KCOO.
+  Proof. intros H ->. unfold gcxs_wf in H. rewrite andb_false_r in H. discriminate. Qed.
+
+  Lemma npz_roundtrip_proof (x : arr) :
+    wf V x = true -> (ms <- save_members V x ;; load_members V ms) = Ok (as_saved V x).
   Proof.
-    destruct x as [c | k g]; intros Hwf H1 H2.
+    destruct x as [c | k g]; intros Hwf.
     - rewrite save_coo. cbn [bind]. rewrite load_coo_members.
       rewrite coo_ctor_loadpath by exact Hwf. reflexivity.
-    - destruct k.
-      + exfalso. unfold wf, gcxs_wf in Hwf. rewrite andb_false_r in Hwf. discriminate.
-      + rewrite save_gcxs. cbn [bind].
-        destruct g as [sh ax d ind ptr f]. cbn [g_shape g_axes g_data g_indices g_indptr g_fill] in *.
-        destruct ax as [ca |]; [| discriminate H1].
-        cbn [axes_field]. rewrite load_gcxs_members.
-        unfold wf, gcxs_wf in Hwf. cbn [g_axes g_shape] in Hwf. rewrite andb_true_r in Hwf.
+    - cbn [wf] in Hwf. pose proof (gcxs_wf_class _ _ Hwf) as Hk.
+      destruct (g_axes g) as [ca |] eqn:Eax.
+      + rewrite (save_gcxs_axes k g ca Hk Eax). cbn [bind]. rewrite load_gcxs_members.
+        unfold gcxs_wf in Hwf. rewrite Eax in Hwf. apply andb_prop in Hwf as [Hwf _].
         apply andb_prop in Hwf as [Hnd Hax].
-        now rewrite (gcxs_ctor_loadpath _ _ _ _ _ _ Hnd Hax).
-      + discriminate H2.
-      + discriminate H2.
+        rewrite (gcxs_ctor_loadpath _ _ _ _ _ _ Hnd Hax). cbn [bind as_saved].
+        destruct g; cbn in *; now subst.
+      + rewrite (save_gcxs_noaxes k g Hk Eax). cbn [bind]. rewrite load_gcxs_members_noaxes, gcxs_ctor_noaxes.
+        cbn [bind as_saved]. destruct g; cbn in *; now subst.
+  Qed.
+
+  (* exact classes come back as themselves *)
+  Lemma npz_roundtrip_exact_proof (x : arr) :
+    wf V x = true -> (class_of x = KCOO \/ class_of x = KGCXS) ->
+    (ms <- save_members V x ;; load_members V ms) = Ok x.
+  Proof.
+    intros Hwf Hc. rewrite (npz_roundtrip_proof x Hwf). destruct x as [c | k g]; [reflexivity |].
+    cbn in Hc. destruct Hc as [-> | ->]; [| reflexivity].
+    exfalso. cbn [wf] in Hwf. now apply (gcxs_wf_class _ _ Hwf).
   Qed.
 
   (* ------------------------------------------------------------------ a file lacking a member is rejected *)
@@ -126,26 +142,23 @@ Section Proofs.
     exfalso; destruct H as [n [Hin Hk]]; cbn in Hin;
     repeat (destruct Hin as [<- | Hin]; [congruence |]); exact Hin.
 
-  Lemma npz_missing_member_rejected_proof (x : arr) (ms : members) (keep : string -> bool) :
+  Lemma npz_missing_member_partial_proof (x : arr) (ms : members) (keep : string -> bool) :
+    class_ok V x = true ->
     save_members V x = Ok ms ->
     (exists n, In n (map fst ms) /\ keep n = false) ->
+    mm_axes_kept V x keep = true ->
     exists e, load_members V (restrict keep ms) = Raise e.
   Proof.
-    destruct x as [c | k g].
-    - rewrite save_coo. intros E H. injection E as <-.
+    destruct x as [c | k g]; intros Hcls.
+    - clear Hcls. rewrite save_coo. intros E H _. injection E as <-.
       unfold restrict. cbn [filter fst].
       split_keep keep; first [ eexists; reflexivity | absurd_all_kept H ].
-    - destruct k.
-      + (* a GCXS payload of class COO has no `coords` attribute: save itself fails *)
-        intros E H. discriminate E.
-      + rewrite save_gcxs. intros E H. injection E as <-.
-        unfold restrict. cbn [filter fst].
-        destruct (g_axes g); cbn [axes_field];
-          split_keep keep; first [ eexists; reflexivity | absurd_all_kept H ].
-      + rewrite save_csr_csc by auto. intros E H. injection E as <-.
-        unfold restrict. cbn [filter fst].
+    - assert (Hk' : k <> KCOO) by (intros ->; discriminate Hcls). clear Hcls.
+      cbn [mm_axes_kept]. destruct (g_axes g) as [ca |] eqn:Eax.
+      + rewrite (save_gcxs_axes k g ca Hk' Eax). intros E H Hax. injection E as <-.
+        unfold restrict. cbn [filter fst]. rewrite Hax.
         split_keep keep; first [ eexists; reflexivity | absurd_all_kept H ].
-      + rewrite save_csr_csc by auto. intros E H. injection E as <-.
+      + rewrite (save_gcxs_noaxes k g Hk' Eax). intros E H _. injection E as <-.
         unfold restrict. cbn [filter fst].
         split_keep keep; first [ eexists; reflexivity | absurd_all_kept H ].
   Qed.
@@ -235,26 +248,23 @@ Definition w_coo : arr Z := ACoo (mkCOO [2; 3] [[0; 1]; [1; 2]] [5; 6] 3).
 Definition w_coo_0d : arr Z := ACoo (mkCOO [] [[]] [7] 0).
 Definition w_gcxs_3d : arr Z := AGcxs KGCXS (mkGCXS [2; 3; 4] (Some [0; 2]) [5; 6] [1; 2] [0; 1; 1; 1; 1; 2; 2; 2; 2] 0).
 
-Lemma npz_roundtrip_refuted_gcxs_1d_proof :
-  wf Z w_gcxs_1d = true /\ (ms <- save_members Z w_gcxs_1d ;; load_members Z ms) = Raise ValueError.
-Proof. split; vm_compute; reflexivity. Qed.
+Lemma npz_roundtrip_nonvacuous :
+  Forall (fun x => wf Z x = true) [w_coo; w_coo_0d; w_gcxs_1d; w_gcxs_3d; w_csr; w_csc]
+  /\ (ms <- save_members Z w_csr ;; load_members Z ms)
+     = Ok (AGcxs KGCXS (mkGCXS [2; 3] (Some [0]) [5; 6] [1; 2] [0; 1; 2] 0)).
+Proof. split; [repeat constructor | reflexivity]. Qed.
 
-Lemma npz_roundtrip_refuted_csr_proof :
-  wf Z w_csr = true /\ (ms <- save_members Z w_csr ;; load_members Z ms) = Raise RuntimeError.
-Proof. split; vm_compute; reflexivity. Qed.
-
-Lemma npz_roundtrip_refuted_csc_proof :
-  wf Z w_csc = true /\ (ms <- save_members Z w_csc ;; load_members Z ms) = Raise RuntimeError.
-Proof. split; vm_compute; reflexivity. Qed.
-
-Lemma npz_roundtrip_refuted_proof :
-  exists x : arr Z, wf Z x = true /\ (ms <- save_members Z x ;; load_members Z ms) <> Ok x.
-Proof. exists w_gcxs_1d. split; [vm_compute; reflexivity | vm_compute; discriminate]. Qed.
-
-Lemma npz_partial_nonvacuous :
-  Forall (fun x => wf Z x = true /\ d9_gcxs_1d Z x = true /\ d9_csr_csc_subclass Z x = true)
-         [w_coo; w_coo_0d; w_gcxs_3d].
-Proof. repeat constructor. Qed.
+(* a file of the 3-d GCXS from which only the compressed_axes member was removed loads, as a GCXS whose
+   compressed_axes is None: not an exception, and not the saved array *)
+Lemma npz_missing_member_refuted_proof :
+  exists (x : arr Z) (ms : members Z) (keep : string -> bool) (y : arr Z),
+    wf Z x = true /\ save_members Z x = Ok ms /\ (exists n, In n (map fst ms) /\ keep n = false) /\
+    load_members Z (restrict Z keep ms) = Ok y /\ y <> as_saved Z x.
+Proof.
+  exists w_gcxs_3d. eexists. exists (fun n => negb (String.eqb n s_axes)). eexists.
+  split; [reflexivity |]. split; [reflexivity |]. split; [exists s_axes; split; [cbn; tauto | reflexivity] |].
+  split; [reflexivity | discriminate].
+Qed.
 
 (* Numba: an int8-coordinate COO of shape (300,) comes back with shape (44,) *)
 Definition w_nb : coo Z := mkCOO [300] [[0]; [1]] [5; 6] 0.
@@ -625,29 +635,36 @@ Section ContainerProofs.
   Variable bytes : Type.
   Variable np_savez : bool -> members V -> bytes.     (* np.savez_compressed / np.savez *)
   Variable np_load : bytes -> file V.                 (* zipfile + np.load *)
-  (* ORACLE (trusted; exercised by the fault campaign of tools/props/c14.py): reading back what numpy wrote yields
-     exactly the saved members; every byte string whose central directory or a member CRC does not verify is
-     [Damaged] (this second half is the *meaning* of the constructor, see load_file) *)
-  Hypothesis np_load_savez : forall c ms, np_load (np_savez c ms) = Complete ms.
+  (* ORACLE (trusted; exercised by the fault campaign of tools/props/c14.py).  The meaning of [file] is part of it:
+     np.load raises on [Unreadable]; ZipFile.testzip() reads every member to its end and reports every member whose
+     CRC / local header does not verify ([Archive false _]); the members of an archive that passes testzip read back
+     as stored.  The hypothesis below adds: what numpy wrote is such an archive, holding exactly the saved members. *)
+  Hypothesis np_load_savez : forall c ms, np_load (np_savez c ms) = Archive true ms.
 
   Lemma npz_file_roundtrip_proof (compressed : bool) (x : arr V) :
-    wf V x = true -> d9_gcxs_1d V x = true -> d9_csr_csc_subclass V x = true ->
-    (b <- save_npz V bytes np_savez compressed x ;; load_npz V bytes np_load b) = Ok x.
+    wf V x = true ->
+    (b <- save_npz V bytes np_savez compressed x ;; load_npz V bytes np_load b) = Ok (as_saved V x).
   Proof.
-    intros H0 H1 H2. pose proof (npz_roundtrip_partial_proof V x H0 H1 H2) as R.
+    intros H0. pose proof (npz_roundtrip_proof V x H0) as R.
     unfold save_npz, load_npz. destruct (save_members V x) as [ms | e]; cbn [bind] in *; [| discriminate R].
-    now rewrite np_load_savez.
+    rewrite np_load_savez. exact R.
   Qed.
 
+  (* a byte string that np.load cannot open, or one in which testzip finds a bad member, is rejected whatever the
+     lazy member reads would have returned (this is what closes the read-ahead hole) *)
   Lemma npz_damaged_rejected_proof (b : bytes) :
-    np_load b = Damaged -> exists e, load_npz V bytes np_load b = Raise e.
-  Proof. intros E. unfold load_npz. rewrite E. now eexists. Qed.
-
-  (* whatever load_npz returns was obtained from the members of a complete file *)
-  Lemma npz_loaded_is_complete_proof (b : bytes) (y : arr V) :
-    load_npz V bytes np_load b = Ok y -> exists ms, np_load b = Complete ms /\ load_members V ms = Ok y.
+    (np_load b = Unreadable \/ exists view, np_load b = Archive false view) ->
+    exists e, load_npz V bytes np_load b = Raise e.
   Proof.
-    unfold load_npz. destruct (np_load b) as [ms |]; cbn [load_file]; [eauto | discriminate].
+    unfold load_npz. intros [E | [view E]]; rewrite E; cbn; eexists; reflexivity.
+  Qed.
+
+  (* whatever load_npz returns was obtained from the members of an archive that passed testzip *)
+  Lemma npz_loaded_is_verified_proof (b : bytes) (y : arr V) :
+    load_npz V bytes np_load b = Ok y -> exists view, np_load b = Archive true view /\ load_members V view = Ok y.
+  Proof.
+    unfold load_npz. destruct (np_load b) as [| ok view]; cbn; [discriminate |].
+    destruct ok; [eauto | discriminate].
   Qed.
 End ContainerProofs.
 
